@@ -88,6 +88,66 @@ void set_hb(int n) { int r; r = set_heart_beat(n); rec("HBSET " + me() + " " + n
 void set_script(string h, string s) { if (!scripts) scripts = ([ ]); scripts[h] = s; }
 void do_move(object dest) { move_object(dest); }
 
+// uid operations (separate function: the command interpreter is at the local variable limit)
+void uop(string *a) {
+  string v; object o;
+  v = a[0];
+  switch (v) {
+  case "uclone":
+  case "uload":
+    {
+      mixed e; object q;
+      rec("UNEW " + v + " " + me() + " " + a[1] + " " + a[2]);
+      if (v == "uclone") e = catch(q = clone_object(a[1])); else e = catch(q = load_object(a[1]));
+      if (q) q->set_tag(a[2]);
+      rec("UNEWDONE " + a[2] + " ok=" + (q ? 1 : 0) + " err=" + (e ? replace_string(e, "\n", "") : "0"));
+    }
+    break;
+  case "useteuid": // useteuid <name|0>
+    {
+      mixed e, r;
+      if (a[1] == "me") a[1] = getuid(this_object());
+      if (a[1] == "0") e = catch(r = seteuid(0)); else e = catch(r = seteuid(a[1]));
+      rec("USETEUID " + me() + " " + a[1] + " ret=" + r + " err=" + (e ? 1 : 0));
+    }
+    break;
+  case "uexport": // uexport <target>
+    {
+      mixed e, r;
+      o = ob_of(a[1]);
+      if (o) { e = catch(r = export_uid(o)); rec("UEXPORT " + me() + " " + a[1] + " ret=" + r + " err=" + (e ? 1 : 0)); }
+    }
+    break;
+  case "uids":    // dump uid/euid of every registered object and of the blueprints
+    {
+      mapping reg; string t, r2; object q;
+      reg = master()->query_registry(); r2 = "";
+      if (reg) foreach (t in sort_array(keys(reg), 1)) { q = reg[t]; if (q) r2 += " " + t + ":" + getuid(q) + ":" + (geteuid(q) ? geteuid(q) : "0"); }
+      foreach (t in ({ "/u/a", "/u/b", "/u/c", "/u/d", "/u/e", "/uobj" })) { q = find_object(t); if (q) r2 += " " + t + ":" + getuid(q) + ":" + (geteuid(q) ? geteuid(q) : "0"); }
+      r2 += " M:" + getuid(master()) + ":" + (geteuid(master()) ? geteuid(master()) : "0");
+      rec("UIDS" + r2);
+    }
+    break;
+  case "ucall":   // ucall <file>: implicit load through call_other on a file name
+    {
+      mixed e, r;
+      rec("UNEW ucall " + me() + " " + a[1] + " -");
+      e = catch(r = call_other(a[1], "query_nothing"));
+      rec("UNEWDONE - ok=" + (find_object(a[1]) ? 1 : 0) + " err=" + (e ? replace_string(e, "\n", "") : "0"));
+    }
+    break;
+  case "ucf":     // ucf <file> <answer>: change the master's creator_file policy
+    master()->set_cf(a[1], a[2]);
+    break;
+  case "uvs":     // uvs <uid> <answer>
+    master()->set_vs(a[1], a[2]);
+    break;
+  case "umclone": // umclone <file> <tag> <drop>: the master clones (drop=1: with its euid set to 0 first)
+    master()->m_clone(a[1], a[2], to_int(a[3]));
+    break;
+  }
+}
+
 void do_op(string op) {
   string *a;
   string v;
@@ -313,6 +373,9 @@ void do_op(string op) {
       rec("FEDONE " + a[1] + " " + (e ? "err" : (stringp(r) ? "str" : (arrayp(r) ? "arr" : (objectp(r) ? "ob" : "" + r)))));
       if (objectp(r) && r != this_object()) destruct(r);
     }
+    break;
+  case "uclone": case "uload": case "useteuid": case "uexport": case "uids": case "ucall": case "ucf": case "uvs": case "umclone":
+    uop(a);
     break;
   case "setcs":   // setcs <script>: the next vobj created runs this script inside create()
     master()->set_create_script(sub(implode(a[1..], " ")));
